@@ -123,6 +123,10 @@ def prop_sample(ctx, case):
             w = words(sd, i)
             if code == 'PERF_STK_UHdr':
                 w[1] = nf % 14
+            if code == 'PERF_STK_UData':
+                for z in range(4):          # null frames (a stack ends with a zero return address)
+                    if (sd >> (3 * z)) % 5 == 0:
+                        w[z] = 0
             evs.append(EV.E(OTHER if other else TID, code, 0, args=w))
         evs.append(EV.E(TID, 'PERF_Event', 2, args=[flags ^ 0xffff, 9, 0, 0]))
     out = [t for t in guard(emit, evs, 'PERF_Event')]
